@@ -329,6 +329,10 @@ impl Sweep {
             });
         }
 
+        // C03 runs three lint passes per case (first, cached, rebased): its thorough tier deepens
+        // the G1 families above but keeps the quick-tier bounds for the two huge families below
+        // (C01 and C02 sweep the same G2/G3 space at the thorough bounds)
+        let t = if mode == Mode::C03 { Tier::Quick } else { t };
         // ---- G3: deviations of the seed texts ------------------------------------------------
         let g3q = Arc::new(g3(
             &h.seeds,
@@ -401,7 +405,8 @@ impl Sweep {
                 generator: Gen::Pairs {
                     vocab: vocab.clone(),
                     vocab2: vocab.clone(),
-                    seps: strs(&[" ", "-", ", ", ". ", "\n", "'"]),
+                    // C01 lints every pair with every rule: three separators; C02 sees all six
+                    seps: if mode == Mode::C01 { strs(&[" ", ". ", "\n"]) } else { strs(&[" ", "-", ", ", ". ", "\n", "'"]) },
                     ends: strs(&[""]),
                 },
                 embed: false,
